@@ -12,7 +12,7 @@ open Nebula.HsManager Nebula.HsNet
 inductive Kind
   | other
   | s1Fresh (cert : List Addr)                       -- first message of a handshake not seen before
-  | s1Replay (reply : Option Handle) (src : Nat)     -- the receiver still holds the tunnel this message created
+  | s1Replay (cert : List Addr) (reply : Option Handle) (src : Nat)  -- the receiver still holds the tunnel this message created
   | s1Older (cert : List Addr)                       -- not newer than the tunnel the receiver accepted as responder
   | s1Self
   | s2Complete (cert : List Addr) (store : List Cached) (src : Nat)
@@ -33,7 +33,7 @@ def classifyDeliver (w : Net) (h : Handle) (src to : Nat) : Kind :=
         if cert.any (fun a => nd.cfg.myAddrs.contains a) then .s1Self else
         let a0 := cert.headD 0
         match (nd.main.getList a0).find? (fun t => t.pkt0 == some h) with
-        | some t => .s1Replay t.pkt2 src
+        | some t => .s1Replay cert t.pkt2 src
         | none =>
           match nd.main.primary a0 with
           | some ex => if ex.hsTime ≥ time && !ex.initiator then .s1Older cert else .s1Fresh cert
@@ -104,7 +104,8 @@ def c09 (c : Ctx) (k : Kind) : String :=
     | _ => false)
   if !hostsOk then "bad c09-tunnel-under-uncertified-address" else
   match k with
-  | .s1Fresh cert | .s2Complete cert _ _ =>
+  | .s1Fresh cert | .s2Complete cert _ _ | .s1Replay cert _ _ | .s1Older cert =>
+    -- (whether a replayed / older message may create a tunnel at all is C10's question)
     if fresh.all (fun t => t.2 == cert) then "ok" else "bad c09-new-tunnel-not-from-certificate"
   | .s2Wrong => if fresh.isEmpty then "ok" else "bad c09-wrong-responder-installed"
   | .s1Self | .s2Self => if fresh.isEmpty then "ok" else "bad c09-self-handshake-installed"
@@ -114,7 +115,7 @@ def c09 (c : Ctx) (k : Kind) : String :=
 def c10 (c : Ctx) (k : Kind) (pidOf : Handle → Nat) : String :=
   let same := c.implH == c.preH && c.implI == c.preI && c.implR == c.preR
   match k with
-  | .s1Replay reply src =>
+  | .s1Replay _ reply src =>
     if !same then "bad c10-replay-changed-tunnels" else
     let want := match reply with | some h => s!"T[h{pidOf h}>{src}]" | none => "T[]"
     if c.implT == want then "ok" else s!"bad c10-replay-wrong-reply want={want}"
@@ -122,6 +123,15 @@ def c10 (c : Ctx) (k : Kind) (pidOf : Handle → Nat) : String :=
     if !same then "bad c10-older-handshake-replaced" else
     if (inner c.implT).any (·.startsWith "h") then "bad c10-older-handshake-answered" else "ok"
   | _ => "ok"
+
+/-- consecutive writes of one packet are one group -/
+def groupTx : List (String × List String) → List (String × List String)
+  | (a, da) :: (b, db) :: rest =>
+    if a == b then groupTx ((a, da ++ db) :: rest) else (a, da) :: groupTx ((b, db) :: rest)
+  | l => l
+termination_by l => l.length
+
+def sortStrs (l : List String) : List String := l.mergeSort (fun a b => a < b || a == b)
 
 def pendingOf (e : String) : Option (Nat × Int × Nat) :=
   match e.splitOn ":" with
@@ -149,7 +159,9 @@ def c32 (c : Ctx) (k : Kind) (cfg : Cfg) (view : Option (List (Nat × Int))) (ta
   if sched != "ok" then sched else
   match k with
   | .s2Complete _ store src =>
-    let want := "T[" ++ ",".intercalate ((store.filter cfg.allowed).map (fun p => s!"m{p.len}>{src}")) ++ "]"
+    -- the canonical form writes consecutive transmissions of equal name as one group
+    let items := groupTx ((store.filter cfg.allowed).map (fun p => (s!"m{p.len}", [toString src])))
+    let want := "T[" ++ ",".intercalate (items.map (fun (n, d) => n ++ ">" ++ "+".intercalate (sortStrs d))) ++ "]"
     if c.implT == want then "ok" else s!"bad c32-flush-mismatch want={want}"
   | _ => "ok"
 
